@@ -462,3 +462,96 @@ func splitArgs(s string) []string {
 	}
 	return out
 }
+
+// skolemize replaces existential quantifiers in positive position of an
+// assumed fact by fresh constants (sound for assumptions, and it spares the
+// solvers a quantifier instantiation).  Only and / => / ite / or spines are
+// descended; anything else is left as it is.
+func (c *FuncCtx) skolemize(f string) string {
+	if !strings.Contains(f, "(exists ") {
+		return f
+	}
+	if !strings.HasPrefix(f, "(") || !strings.HasSuffix(f, ")") {
+		return f
+	}
+	parts := splitArgs(f[1 : len(f)-1])
+	if len(parts) == 0 {
+		return f
+	}
+	switch parts[0] {
+	case "and", "or":
+		for i := 1; i < len(parts); i++ {
+			parts[i] = c.skolemize(parts[i])
+		}
+		return "(" + strings.Join(parts, " ") + ")"
+	case "=>":
+		parts[len(parts)-1] = c.skolemize(parts[len(parts)-1])
+		return "(" + strings.Join(parts, " ") + ")"
+	case "ite":
+		if len(parts) == 4 {
+			parts[2] = c.skolemize(parts[2])
+			parts[3] = c.skolemize(parts[3])
+			return "(" + strings.Join(parts, " ") + ")"
+		}
+	case "exists":
+		if len(parts) != 3 {
+			return f
+		}
+		bs := parts[1]
+		body := parts[2]
+		for _, b := range splitArgs(bs[1 : len(bs)-1]) {
+			nv := splitArgs(b[1 : len(b)-1])
+			if len(nv) != 2 {
+				return f
+			}
+			base := strings.TrimRight(nv[0], "0123456789")
+			base = strings.TrimSuffix(base, "?")
+			k := c.fresh("sk_"+base, nv[1])
+			body = replaceSymbol(body, nv[0], k)
+		}
+		return c.skolemize(body)
+	}
+	return f
+}
+
+// replaceSymbol substitutes whole-symbol occurrences outside string literals.
+func replaceSymbol(s, from, to string) string {
+	var b strings.Builder
+	inStr := false
+	isSym := func(ch byte) bool {
+		return ch != ' ' && ch != '(' && ch != ')' && ch != '"'
+	}
+	for i := 0; i < len(s); {
+		ch := s[i]
+		if inStr {
+			b.WriteByte(ch)
+			if ch == '"' {
+				inStr = false
+			}
+			i++
+			continue
+		}
+		if ch == '"' {
+			inStr = true
+			b.WriteByte(ch)
+			i++
+			continue
+		}
+		if isSym(ch) {
+			j := i
+			for j < len(s) && isSym(s[j]) {
+				j++
+			}
+			if s[i:j] == from {
+				b.WriteString(to)
+			} else {
+				b.WriteString(s[i:j])
+			}
+			i = j
+			continue
+		}
+		b.WriteByte(ch)
+		i++
+	}
+	return b.String()
+}
